@@ -1,14 +1,14 @@
 SPECIFICATION MSpec
 CONSTANTS NW = 2
- MaxD = 4
- MaxS = 3
- MaxTag = 3
+ MaxD = 3
+ MaxS = 2
+ MaxTag = 2
  MaxObj = 1
  MaxQ = 1
- MaxL = 4
- Flags = {0, 1, 2}
+ MaxL = 3
+ Flags = {0, 2}
  YieldOpts = {2}
- Ops = {"create", "join", "tryjoin", "detach", "yield"}
+ Ops = {"create", "join", "tryjoin", "detach"}
 INVARIANT OK
 INVARIANT ExactlyOnePlace
 INVARIANT RunnableSaved
